@@ -106,6 +106,11 @@ func findFn(c *Check, p *Program, rule, rel, name string) *ssa.Function {
 		return nil
 	}
 	c.Funcs[fname(fn)] = true
+	if t := forwardTarget(fn); t != nil {
+		// the anchor only forwards to an unexported function of its package: that one carries the logic
+		c.Funcs[fname(t)] = true
+		return t
+	}
 	return fn
 }
 
@@ -136,13 +141,36 @@ func ruleWireFields(c *Check, p *Program, rule string) {
 			}
 		}
 	}
+	// the same words written out byte by byte into the frame's scratch buffer
+	allInstrsDeep(wr, func(in ssa.Instruction) {
+		st, ok := in.(*ssa.Store)
+		if !ok {
+			return
+		}
+		ia, isIA := st.Addr.(*ssa.IndexAddr)
+		if !isIA || !(lastField(ia.X) == "Frame.buf" || derivesFromField(ia.X, "Frame.buf")) {
+			return
+		}
+		switch {
+		case derivesFromFieldArith(st.Val, "FrameDataBlock.Checksum"):
+			if wSite == nil {
+				wSite, wPos = in.Block(), p.InstrPos(in)
+			}
+		case derivesFromFieldArith(st.Val, "FrameDataBlock.Size"):
+			if wAnchor == nil {
+				wAnchor = in.Block()
+			}
+		}
+	})
 	var rSite, rAnchor *ssa.BasicBlock
 	var rPos string
 	allInstrsDeep(rd, func(in ssa.Instruction) {
 		if st, ok := in.(*ssa.Store); ok {
 			switch lastField(st.Addr) {
 			case "FrameDataBlock.Checksum":
-				if derivesFromCall(st.Val, isSourceRead32) {
+				if derivesFromCall(st.Val, func(f *ssa.Function) bool {
+					return isSourceRead32(f) || (f.Pkg != nil && f.Pkg.Pkg.Path() == "encoding/binary" && strings.HasPrefix(f.Name(), "Uint"))
+				}) {
 					rSite = in.Block()
 					rPos = p.InstrPos(in)
 				}
@@ -644,7 +672,7 @@ func ruleContentHashFeed(c *Check, p *Program, rule string) {
 	if rr != nil {
 		n := 0
 		okSeq := true
-		for _, ci := range callsIn(rr) {
+		for _, ci := range callsInDeep(rr) {
 			if calleeIs(ci, pkgStream, "FrameDataBlock.Uncompress") {
 				n++
 				a := ci.Common().Args
@@ -910,4 +938,17 @@ func leEmits(ci ssa.CallInstruction, method string) ssa.Value {
 		}
 	}
 	return out
+}
+
+// derivesFromFieldArith: v is computed (conversions, shifts, masks included) from a load of the field.
+func derivesFromFieldArith(v ssa.Value, field string) bool {
+	found := false
+	walkBack(v, true, func(x ssa.Value) bool {
+		if loadField(x) == field {
+			found = true
+			return false
+		}
+		return !found
+	})
+	return found
 }
